@@ -34,6 +34,7 @@ theorem transW_startCnt (cfg : Cfg) (sh : Shared) (n t : Nat) (w : WSt) :
     | done => simp only []; rw [bodyEnd_startCnt]; exact callStep_startCnt cfg sh n t c
   | lock => left; simp only [transW]; split <;> simp [afterWait_startCnt]
   | bYield id sc => left; simp only [transW]; split <;> simp [bodyEnd_startCnt]
+  | cfgUnlock id again => left; simp only [transW, taskDone]; split <;> rfl
   | _ => left; simp [transW, taskDone]
 
 theorem transS_startCnt (cfg : Cfg) (sh : Shared) (n t : Nat) (x : SSt) : (transS cfg sh n t x).1.startCnt = sh.startCnt := by
@@ -48,7 +49,7 @@ theorem pollHead_startCnt (sh : Shared) (r : MRegs) (k : Poll) : (pollHead sh r 
   unfold pollHead; split
   · rfl
   · exact pollExit_startCnt sh r k false
-theorem stepMYield_startCnt (sh : Shared) (r : MRegs) : (stepMYield sh r).1.startCnt = sh.startCnt := by
+theorem stepMYield_startCnt (cfg : Cfg) (sh : Shared) (r : MRegs) : (stepMYield cfg sh r).1.startCnt = sh.startCnt := by
   unfold stepMYield drainEnter; (repeat' split) <;> rfl
 theorem drainReturn_startCnt (sh : Shared) (r : MRegs) (b : Bool) : (drainReturn sh r b).1.startCnt = sh.startCnt := by
   unfold drainReturn; (repeat' split) <;> rfl
@@ -56,6 +57,8 @@ theorem shutdownReturn_startCnt (sh : Shared) (r : MRegs) : (shutdownReturn sh r
   unfold shutdownReturn; (repeat' split) <;> rfl
 theorem dtorReturn_startCnt (sh : Shared) (r : MRegs) : (dtorReturn sh r).1.startCnt = sh.startCnt := by
   unfold dtorReturn; rfl
+theorem dtorEarly_startCnt (sh : Shared) (r : MRegs) : (dtorEarly sh r).1.startCnt = sh.startCnt := by
+  unfold dtorEarly; split <;> simp [dtorReturn_startCnt]
 
 theorem transM_startCnt (cfg : Cfg) (sh : Shared) (n t : Nat) (pc : MPc) (r : MRegs) (alt : Nat) :
     (transM cfg sh n t pc r alt).1.startCnt = sh.startCnt := by
@@ -63,7 +66,7 @@ theorem transM_startCnt (cfg : Cfg) (sh : Shared) (n t : Nat) (pc : MPc) (r : MR
   | inCall c => simp only [transM]; cases hx : (callStep cfg sh n t c).2.1 <;> exact callStep_startCnt cfg sh n t c
   | _ =>
     simp only [transM] <;> (repeat' split) <;>
-    simp [pollExit_startCnt, pollHead_startCnt, stepMYield_startCnt, drainReturn_startCnt, shutdownReturn_startCnt, dtorReturn_startCnt]
+    simp [pollExit_startCnt, pollHead_startCnt, stepMYield_startCnt, drainReturn_startCnt, shutdownReturn_startCnt, dtorReturn_startCnt, dtorEarly_startCnt]
 
 theorem trans_startCnt (cfg : Cfg) (sh : Shared) (n t : Nat) (th : Thread) (alt : Nat) :
     (trans cfg sh n t th alt).1.startCnt = sh.startCnt ∨ (∃ id, th = .worker (.unlockTask id)) ∨ (∃ id, th = .worker (.popped id)) := by
@@ -78,7 +81,7 @@ theorem trans_startCnt (cfg : Cfg) (sh : Shared) (n t : Nat) (th : Thread) (alt 
 
 /-- every step keeps `quiesced` once it is set -/
 theorem stepEff_quiesced (cfg : Cfg) (sh : Shared) (n t : Nat) (th : Thread) (alt : Nat) (sh' : Shared) (th' : Thread) (post : Post)
-    (h : StepEff cfg sh n t th alt sh' th' post) (hq : sh.quiesced = true) : sh'.quiesced = true := by
+    (h : StepEff cfg sh n t th alt sh' th' post) (hnr : restartTh th = false) (hq : sh.quiesced = true) : sh'.quiesced = true := by
   cases h with
   | quiet h => rw [h.quiesced]; exact hq
   | push _ _ _ _ _ h4 => rw [h4]; exact hq
@@ -92,9 +95,10 @@ theorem stepEff_quiesced (cfg : Cfg) (sh : Shared) (n t : Nat) (th : Thread) (al
   | quiesce _ _ _ _ _ _ _ h4 => exact h4
   | joined _ _ _ _ h => rw [h.quiesced]; exact hq
   | setShut _ _ _ _ _ _ _ h4 => rw [h4]; exact hq
+  | restart hth => rw [hth] at hnr; cases hnr
 
 /-- P3 (one step): from a state in which a join loop has completed, no step starts a task body -/
-theorem quiet_step (cfg : Cfg) (s : St) (c : Choice) (hq : s.sh.quiesced = true) (hQ : QOk s) :
+theorem quiet_step (cfg : Cfg) (s : St) (c : Choice) (hq : s.sh.quiesced = true) (hQ : QOk s) (hN : NoRs s) :
     (step cfg s c).sh.quiesced = true ∧ (step cfg s c).sh.startCnt = s.sh.startCnt := by
   have Q := hQ hq
   apply step_cases cfg s c (fun s' => s'.sh.quiesced = true ∧ s'.sh.startCnt = s.sh.startCnt)
@@ -103,17 +107,17 @@ theorem quiet_step (cfg : Cfg) (s : St) (c : Choice) (hq : s.sh.quiesced = true)
   · intro t th to late _ _ _
     exact ⟨by rw [(reacq_flags cfg s.sh t late).quiesced]; exact hq, reacq_startCnt cfg s.sh t late⟩
   · intro t th alt l hget _ _ _ _ _
-    refine ⟨stepEff_quiesced cfg s.sh s.thr.length t th alt _ _ _ (trans_eff cfg s.sh s.thr.length t th alt) hq, ?_⟩
+    refine ⟨stepEff_quiesced cfg s.sh s.thr.length t th alt _ _ _ (trans_eff cfg s.sh s.thr.length t th alt) (hN t th hget) hq, ?_⟩
     rcases trans_startCnt cfg s.sh s.thr.length t th alt with h | ⟨id, h⟩ | ⟨id, h⟩
     · exact h
-    · have := (Q.thr t th hget).2.1 (by rw [h]; rfl); rw [h] at this; simp [goneW] at this
-    · have := (Q.thr t th hget).2.1 (by rw [h]; rfl); rw [h] at this; simp [goneW] at this
+    · have := (Q.thr t th hget).2 (by rw [h]; rfl); rw [h] at this; simp [goneW] at this
+    · have := (Q.thr t th hget).2 (by rw [h]; rfl); rw [h] at this; simp [goneW] at this
 
 theorem quiet_no_hand (s : St) (Q : Quiet s) (id : Nat) : handCnt s.thr id = 0 ∧ runCnt s.thr id = 0 := by
   have hc : ∀ th, th ∈ s.thr → cur th = none ∧ running th = none := by
     intro th hm
     obtain ⟨t, hlt, hget⟩ := List.getElem_of_mem hm
-    have hq := (Q.thr t th (by rw [List.getElem?_eq_getElem hlt, hget])).2.1
+    have hq := (Q.thr t th (by rw [List.getElem?_eq_getElem hlt, hget])).2
     cases th with
     | main pc r => exact ⟨rfl, rfl⟩
     | sub x => exact ⟨rfl, rfl⟩
